@@ -237,8 +237,16 @@ func (f *Failover) Get(
 					"key", key)
 			}
 
-			if value != nil && !f.config.FailHard {
-				return value, nil
+			if !f.config.FailHard {
+				if value != nil {
+					return value, nil
+				}
+
+				// Value that is too stale to be served during update is still better than a failure.
+				var errExpired ErrWithExpiredItem
+				if errors.As(err, &errExpired) && errExpired.Value() != nil {
+					return errExpired.Value(), nil
+				}
 			}
 		}
 
